@@ -97,6 +97,7 @@ MapFuncFinger(r) ==
        \* `map . Self` without a function into a field of the source's own pointer type: a copy, not the source pointer itself
        \cup (IF r.res.selfShared THEN {<<"C04", "result-shares-memory-with-source", "map-dot-into-pointer-field", r.id>>} ELSE {})
        \cup (IF r.res.selfV # 5 THEN {<<"C05", "wrong-source-selected", "map-dot-into-pointer-field", r.id>>} ELSE {})
+\* (also two non-update corners: useUnderlyingTypeMethods with a fallible function as the whole method; ignoreMissing below a map value)
 \* C01 on update methods at the corners of the zero-value guard: a struct field that cannot be compared with == (it holds a slice)
 \* under :struct, and `map . X` with a pointer source.  Whatever goverter decides, a reported success must compile.
 UpdOddFinger(r) ==
